@@ -214,6 +214,7 @@ def run(ck):
     ck.floor("C08-REQ", 2)
     mtcommon.check_order(ck, prog, CFG, "C08-ORDER")
     mtcommon.check_wait(ck, prog, CFG, "C08-WAIT")
+    mtcommon.check_waitpred(ck, prog, CFG, "C08-WAIT")
     ck.floor("C08-WAIT", 8)
     mtcommon.check_end(ck, prog, CFG, "C08-END")
     ck.rule("C08-FLOW", "must-pass rules of the main loop")
